@@ -42,6 +42,9 @@ CHECKS["C10"] = dict(cat="proof", design="§3 C10",
 CHECKS["C16"] = dict(cat="proof", design="§3 C16",
     text="quadrotor model f, g_accel, g_gyro executed with all 39 parameters symbolic: q.q'=0 for every state; above ground without aerodynamic terms the net force/moment recovered from x' equal the per-rotor sum (thrust along body z at l_i(cos th_i, sin th_i, 0), reaction torque -CM dir_i T_i) plus gravity, and p' = R v; symmetric frame + quarter-weight rotors + level at rest => x' = 0; shipped defaults satisfy the symmetric-frame premises; free fall => accelerometer 0, gyro = body rate; equivariance under horizontal translation and yaw rotation on all branch cells; motor speed follows (cmd-om)/tau_up|down on its two cells and relaxes monotonically.",
     note="trusted: CasADi SX/instruction API, encoder (validated per run), S^3 chart, formal (sin,cos) pairs, z3. Real arithmetic; m, J, tau, CT > 0.")
+CHECKS["C15"] = dict(cat="proof", design="§3 C15",
+    text="One-step obligations from an arbitrary previous state (inductive invariants): rate controller |i1|<=i_max, 0<alpha<1, e1/de1/M laws; velocity input: yaw set-point in [-pi,pi], |pw_sp1-pw|<=2, reset puts it on the vehicle, stick maps; acro stick maps and bounds; position controller: feedback term <= 0.3 m g (thrust vector observed by call-through recording of norm_2 arguments), height integrator within its limit, thrust = |T|. Attitude laws: the shipped functions are congruent (QF_UF) to kp o log(X^-1 X_r) resp. J_l diag(kp) log; X^-1 X_r has exactly the parameters of the relative rotation (either quaternion sign); its log is phi*n for phi in (0,pi), so omega = kp o (phi n) / J_l(phi n) diag(kp) phi n; exactly zero for q_r = +-q. se23_error: congruent to log(X^-1 X_r); relative element exact (log: C03).",
+    note="trusted: as C03 + IEEE commutativity of +,* for the QF_UF congruence. Real arithmetic; pi is the code's double. input_auto_level's angle map is only covered through C14 (unit quaternion).")
 CHECKS["C04"] = dict(cat="proof", design="§3 C04",
     text="Ad/ad/bracket of every group/algebra executed symbolically; (Ad_X y)^ = M(X) y^ M(X^-1), Ad homomorphism and inverse, ad = bracket = matrix commutator, antisymmetry, Jacobi, block-diagonal direct-sum ad, and Ad_exp(x) = expm(ad_x) in closed form (Rodrigues / Barfoot quartic) are proved per entry; wrong shapes and crashes of offered operations are violations.",
     note="trusted: as C01 plus the closed forms of expm(ad) and the theorem Ad_{exp A} = expm(ad_A) (used for SE_2(3)/Euler where exp ends in from_Matrix). Operations raising NotImplementedError are out of scope as the property states.")
